@@ -3,6 +3,9 @@
 import json, sys
 
 CHECKS = {
+ "C11": dict(engine="ENUM", design="§4 C11", technique="bounded-exhaustive enumeration of message sequences x every cut (pair) of the byte stream x both production read loops on the real Channel over a socket pair with tiny buffers; malformed-prefix lattice; writer flush schedules",
+   text="(a) every sequence of 1-3 messages with frame sizes straddling the initial buffer, its doublings and the maximum, the byte stream cut at every position and every pair of positions, read by the worker's loop and by the main process's real extract_messages: all messages delivered once, in order, intact, capacity never above the ceiling, no stall once all bytes are available; (b) writer: every flush schedule, peer receives exactly the accepted frames; (c) every declared length class x payload class followed by valid messages: error, no panic, never permanently wedged (next messages delivered or HUP/ERROR signalled).",
+   note="24/96-byte buffers stand in for 1 MB/2 MB (thresholds are relative). The worker-side read loop is a transcription of Server::read_channel_messages_and_notify (private); the main-side loop is the real function. Short writes inside one syscall belong to the SIM part."),
  "C16": dict(engine="XS", design="§4 C16", technique="explicit-state BFS over accept/close/track/limit-change histories on the real SessionManager against a counting reference",
    text="All histories up to depth 7 (quick) / 9 (thorough) over accept, close, per-(cluster, IP) tracking and runtime limit changes for max_connections 1..3: the admission decision, the connection count, every per-(cluster, IP) slot count, the one-slot-per-connection rule, return to zero after all closes and 'accepting resumes at zero load' are compared with a counting reference at every step.",
    note="Part (a) only so far (SessionManager core). The end-to-end part (every session teardown path returns buffers, slab entries, gauges and slots; accept queue) needs the SIM engine."),
@@ -36,7 +39,6 @@ PLANNED = {
  "C08": "SIM engine not built yet; planned, see DESIGN.md §4 C08",
  "C09": "SIM engine (CommandHub) not built yet; planned, see DESIGN.md §4 C09",
  "C10": "ENUM/SIM check not built yet; planned, see DESIGN.md §4 C10",
- "C11": "ENUM check not built yet; planned, see DESIGN.md §4 C11",
  "C13": "SIM engine not built yet; planned, see DESIGN.md §4 C13",
  "C14": "SIM engine not built yet; planned, see DESIGN.md §4 C14",
  "C15": "ENUM/SIM check not built yet; planned, see DESIGN.md §4 C15",
